@@ -16,27 +16,38 @@ PROPERTY = 'C13'
 LEVEL = 'exploration'
 RULE = (
     "Case = a logged-in real SoulSeekClient ('me') on the virtual loop, a simulated server (sends ParentMinSpeed / "
-    "ParentSpeedRatio after every login, answers GetUserStats), 3..4 scripted distributed peers (per peer: outcome of "
-    "the client's direct connect accept/refuse/hang, indirect pierce/cannot/silent, optional automatic announcement "
-    "of level/root on connections the client opens to it), connect mode race/fallback, and a history of <= 10 "
-    "events: PotentialParents(list); incoming D connection from p; DistributedBranchLevel(l) / "
+    "ParentSpeedRatio after every login, answers GetUserStats) reached over a link with generated write back "
+    "pressure (drain() of a send to the server completes 0 / 5 / 50 / 200 ms after the write; the bytes leave at "
+    "once), 3..4 scripted distributed peers (per peer: clear and obfuscated listening port, outcome of the client's "
+    "direct connect accept/refuse/hang, indirect pierce/cannot/silent, optional automatic announcement of level/root "
+    "on candidate connections the client opens to it), connect mode race/fallback, network.peer.obfuscate on/off, "
+    "and a history of <= 10 events: PotentialParents(list); incoming D connection from p on the clear or the "
+    "obfuscated listening port (init message obfuscated, plain frames afterwards, as the protocol prescribes for D "
+    "connections); ConnectToPeer(type D) relayed for p (the client opens the connection to p: clear port, or p's "
+    "obfuscated port when network.peer.obfuscate prefers it; p is a child candidate); DistributedBranchLevel(l) / "
     "DistributedBranchRoot(r) / both (either order) on a live link of p or of the current parent (repeated with new "
     "values, level 0 included; with nobody connected: p connects and announces at once); EOF/reset of a link of p / "
     "of the parent / of a child; change of a peer's connect outcome; ParentMinSpeed / ParentSpeedRatio / "
     "GetUserStats(own speed); ResetDistributed; server session loss by reset (auto reconnect + re-login) or EOF "
     "(re-login by a later event); long advance (0.5 / 2 / 11 s). Operands are indices modulo the live population. "
-    "After each event the driver lets 1..4 loop iterations or 0.5 / 1 / 2 / 4 ms pass (the next event lands between "
-    "the sends the previous one triggered; equal arrival instants interleave the handlers of different connections "
-    "per loop iteration) or quiesces (300 ms). Oracle: at every step, on every received message and connection "
-    "state change: the parent is not among the children (evaluation of the history stops there: later observations "
-    "are consequences). At every quiescent point and at the end: parent and every child are CONNECTED type-D "
+    "Optional structured prefixes raise the density of the interesting classes: child and parent early; "
+    "'handover' (a second candidate connects after the parent was chosen and stays silent, the parent is lost, the "
+    "candidate announces 0..100 ms later, i.e. inside or outside the window in which the client is still telling "
+    "the server about the loss); 'limit' (children first, then a speed/ratio/min-speed change, then one more peer). "
+    "After each event the driver lets 1..4 loop iterations or 0.5 / 1 / 2 / 4 / 20 / 100 ms pass (the next event "
+    "lands between the sends the previous one triggered; equal arrival instants interleave the handlers of "
+    "different connections per loop iteration) or quiesces (>= 300 ms, extended until no send to the server is "
+    "waiting for drain() any more). Oracle: at every step, on every received message and connection state change: "
+    "the parent is not among the children (evaluation of the history stops there: later observations are "
+    "consequences). At every quiescent point and at the end: parent and every child are CONNECTED type-D "
     "connections registered in network.peer_connections whose remote end has not closed; a connection that was "
     "neither parent nor child before a parent was chosen does not survive the choice (DESIGN.rst); every child "
     "addition (observed at the moment of the append) happened while acceptance was on, len(children) < max children "
     "(reference: last own GetUserStats against the ParentMinSpeed/ParentSpeedRatio of this server connection, "
     "formula of SOULSEEK.rst, folded in receive order) and the user was not among the last 20 proposed potential "
     "parents; while logged in, the fold of the server-bound BranchLevel / BranchRoot / ToggleParentSearch frames of "
-    "the current session and, per child, of the DistributedBranchLevel / DistributedBranchRoot frames it received "
+    "the current session and, per child, of the DistributedBranchLevel / DistributedBranchRoot frames it received - "
+    "the bytes that arrived at the child parsed as PLAIN frames; unparsable bytes are a violation of their own - "
     "(level 0 implies root = sender) equals the position derived from what the current parent's link last "
     "announced: (root, level + 1, search off), or (me, 0, search on) without a parent. Exceptions of programming-"
     "error type raised inside aioslsk/distributed.py handlers (swallowed and logged by the event bus) are "
@@ -44,7 +55,8 @@ RULE = (
     "distinct sequence of (event kind, gap class)."
 )
 ASSUMPTIONS = [
-    "in-memory TCP: ordered, lossless, latency 1 ms (strictly positive); quiescence = 300 ms without driver action; "
+    "in-memory TCP: ordered, lossless, latency 1 ms (strictly positive); quiescence = 300 ms without driver action, "
+    "extended while the (slow) server link still holds back a drain(): idle at two samples 50 ms apart; "
     "connects in flight (hang: 10 s connect timeout, silent indirect: 60 s) and the 60 s idle read timeout may fire "
     "during long histories: they are ordinary events for the oracle",
     "announced roots are never the client's own user name (the library treats that as 'we are the branch root'); a "
@@ -70,13 +82,15 @@ ROOTS = PEERS + ['rA', 'rB']
 SPEEDS = [0, 1024, 5120, 6000, 10240, 20480]
 MINSPEEDS = [1, 5, 10]
 RATIOS = [50, 25, 100]
-GAPS = [0.0, 0.0005, 0.001, 0.002, 0.004, 'q']
+GAPS = [0.0, 0.0005, 0.001, 0.002, 0.004, 'q', 0.02, 0.1]      # index 5 = quiesce (indices are part of saved cases)
+DRAIN = [0.0, 0.005, 0.05, 0.2]      # back pressure of the server link: drain() completes that much after a write
 ADV = [0.5, 2.0, 11.0]
 DELAYS = [0.0, 0.0005, 0.001, 0.003]
 DIRECT = ['accept', 'refuse', 'hang']
 INDIRECT = ['pierce', 'cannot', 'silent']
-QUIESCE = 0.3
-OPS = ('pp', 'in', 'lvl', 'root', 'both', 'plvl', 'proot', 'pboth', 'close', 'pclose', 'cclose', 'direct', 'indirect',
+QUIESCE = 0.3003     # off the 0.5 ms grid of the events: never samples the instant a write resumes
+OBF_PORT = 2235
+OPS = ('pp', 'in', 'cin', 'lvl', 'root', 'both', 'plvl', 'proot', 'pboth', 'close', 'pclose', 'cclose', 'direct', 'indirect',
        'minspeed', 'ratio', 'speed', 'reset', 'drop', 'relogin', 'adv')
 PROGRAMMING_ERRORS = ('AttributeError', 'TypeError', 'ValueError', 'KeyError', 'IndexError', 'RuntimeError',
                       'InvalidStateError', 'AssertionError', 'NameError', 'UnboundLocalError', 'RecursionError')
@@ -92,15 +106,17 @@ def _i(n):
 @st.composite
 def _event(draw):
     op = draw(st.sampled_from(
-        ['pp'] * 4 + ['in'] * 4 + ['both'] * 3 + ['lvl'] * 2 + ['root'] * 2 + ['plvl'] * 3 + ['proot'] * 3 + ['pboth'] +
+        ['pp'] * 4 + ['in'] * 4 + ['cin'] + ['both'] * 3 + ['lvl'] * 2 + ['root'] * 2 + ['plvl'] * 3 + ['proot'] * 3 + ['pboth'] +
         ['pclose'] * 3 + ['cclose'] * 2 + ['close'] * 2 + ['speed'] * 2 + ['minspeed', 'ratio', 'reset', 'reset', 'drop',
                                                                          'drop', 'relogin', 'adv', 'direct',
                                                                          'indirect']))
-    ev = {'op': op, 'g': draw(st.sampled_from([0, 1, 2, 3, 4, 5, 5, 5, 5]))}
+    ev = {'op': op, 'g': draw(st.sampled_from([0, 1, 2, 3, 4, 6, 7, 5, 5, 5, 5, 5]))}
     if op == 'pp':
         ev['who'] = draw(st.lists(_i(4), min_size=1, max_size=3))
-    if op in ('in', 'lvl', 'root', 'both', 'close', 'direct', 'indirect'):
+    if op in ('in', 'cin', 'lvl', 'root', 'both', 'close', 'direct', 'indirect'):
         ev['p'] = draw(_i(4))
+    if op in ('in', 'lvl', 'root', 'both'):
+        ev['obf'] = draw(st.sampled_from([False, False, True]))     # (new) incoming connection on the obfuscated port
     if op in ('lvl', 'root', 'both', 'close', 'cclose'):
         ev['k'] = draw(_i(3))
     if op in ('lvl', 'both', 'plvl', 'pboth'):
@@ -137,21 +153,45 @@ def case_strategy(draw, avoid=()):
     # optional structured prefix so that a parent and a child exist early (density of the non-trivial class)
     prefix = []
     shape = draw(st.sampled_from(['none', 'child', 'parent', 'child+parent', 'child+parent', 'child+parent',
-                                  'parent+child', 'parent+child']))
+                                  'parent+child', 'parent+child', 'handover', 'handover', 'limit']))
     if shape != 'none':
         c = draw(_i(npeers))
         p = draw(_i(npeers))
-        child = {'op': 'in', 'p': c, 'g': draw(st.sampled_from([5, 5, 3, 1]))}
+        child = {'op': 'in', 'p': c, 'obf': draw(st.sampled_from([False, False, True])),
+                 'g': draw(st.sampled_from([5, 5, 3, 1]))}
         parent = [{'op': 'pp', 'who': [p], 'g': 5},
                   {'op': 'both', 'p': p, 'k': 0, 'v': draw(st.sampled_from([0, 1, 2])), 'r': draw(_i(len(ROOTS))),
                    'rf': draw(st.booleans()), 'g': draw(st.sampled_from([5, 5, 2, 0]))}]
-        prefix = {'child': [child], 'parent': parent, 'child+parent': [child] + parent,
-                  'parent+child': parent + [child]}[shape]
+        if shape == 'handover':
+            # a second candidate connects after the parent was chosen and stays silent; the parent is lost and the
+            # candidate announces while the client may still be telling the server about the loss
+            q = (p + 1 + draw(_i(npeers - 1))) % npeers
+            prefix = [child] + parent + [
+                {'op': 'pp', 'who': [q], 'g': 5},
+                {'op': 'pclose', 'reset': draw(st.booleans()), 'g': draw(st.sampled_from([0, 1, 2, 3, 4, 6, 7]))},
+                {'op': 'both', 'p': q, 'k': 0, 'v': draw(st.sampled_from([0, 1, 2, 3])), 'r': draw(_i(len(ROOTS))),
+                 'rf': draw(st.booleans()), 'g': draw(st.sampled_from([5, 5, 2, 6]))}]
+            parent[1]['g'] = 5
+            peers[p]['auto'] = peers[q]['auto'] = None
+            peers[p]['direct'] = peers[q]['direct'] = 0
+        elif shape == 'limit':
+            # children first, then the limit changes (possibly below the number of children), then one more peer
+            change = draw(st.sampled_from([{'op': 'speed', 'v': 1}, {'op': 'speed', 'v': 2}, {'op': 'speed', 'v': 3},
+                                           {'op': 'speed', 'v': 0}, {'op': 'ratio', 'v': 2}, {'op': 'ratio', 'v': 0},
+                                           {'op': 'minspeed', 'v': 1}, {'op': 'minspeed', 'v': 2}]))
+            more = {'op': 'in', 'p': draw(_i(npeers)), 'obf': False, 'g': 5}
+            prefix = [child] + ([dict(more, p=p)] if draw(st.booleans()) else []) + [
+                dict(change, g=draw(st.sampled_from([5, 5, 5, 2, 0]))), more]
+        else:
+            prefix = {'child': [child], 'parent': parent, 'child+parent': [child] + parent,
+                      'parent+child': parent + [child]}[shape]
     rest = draw(st.lists(_event(), min_size=1, max_size=10 - len(prefix)))
     events = [e for e in prefix + rest if e['op'] not in avoid]
     return {'peers': peers, 'race': draw(st.booleans()), 'speed': draw(st.sampled_from([2, 2, 2, 4, 4, 4, 5, 5, 5, 3, 1, 0])),
             'minspeed': draw(_i(len(MINSPEEDS))) if draw(st.booleans()) else 0,
-            'ratio': draw(_i(len(RATIOS))) if draw(st.booleans()) else 0, 'events': events}
+            'ratio': draw(_i(len(RATIOS))) if draw(st.booleans()) else 0,
+            'drain': draw(st.sampled_from([0, 0, 0, 1, 2, 2, 3])), 'obfuscate': draw(st.sampled_from([False, False, True])),
+            'events': events}
 
 
 # ---------------------------------------------------------------------------
@@ -193,11 +233,11 @@ def _sanitise(case):
                'who': [_int(w, npeers) for w in (who if isinstance(who, list) else [])][:3],
                'p': _int(ev.get('p'), npeers), 'k': _int(ev.get('k'), 8), 'v': _int(ev.get('v'), 6),
                'r': _int(ev.get('r'), len(ROOTS)), 'rf': bool(ev.get('rf')), 'reset': bool(ev.get('reset')),
-               'm': _int(ev.get('m'), 3), 'd': _int(ev.get('d'), len(ADV))}
+               'm': _int(ev.get('m'), 3), 'd': _int(ev.get('d'), len(ADV)), 'obf': bool(ev.get('obf'))}
         events.append(out)
     return {'peers': peers, 'race': bool(case.get('race')), 'speed': _int(case.get('speed', 4), len(SPEEDS), 4),
             'minspeed': _int(case.get('minspeed'), len(MINSPEEDS)), 'ratio': _int(case.get('ratio'), len(RATIOS)),
-            'events': events}
+            'drain': _int(case.get('drain'), len(DRAIN)), 'obfuscate': bool(case.get('obfuscate')), 'events': events}
 
 
 # ---------------------------------------------------------------------------
@@ -282,6 +322,9 @@ def run_case(case) -> CaseResult:
         s.network.server.reconnect.auto = True
         s.network.server.reconnect.timeout = 1
         s.network.peer.connect_mode = PeerConnectMode.RACE if doc['race'] else PeerConnectMode.FALLBACK
+        s.network.peer.obfuscate = doc['obfuscate']      # prefer the obfuscated port of a peer when there is a choice
+        drain_delay = DRAIN[doc['drain']]
+        labels.add('server-drain:%gms' % (drain_delay * 1000))
         srv = {'minspeed': MINSPEEDS[doc['minspeed']], 'ratio': RATIOS[doc['ratio']], 'speed': SPEEDS[doc['speed']]}
 
         def post_login():
@@ -295,7 +338,8 @@ def run_case(case) -> CaseResult:
         sent = {}        # id(PeerLink) -> [(kind, value, sender)] announcements the harness sent on the link
         peers = []
         for i, cfg in enumerate(doc['peers']):
-            p = world.add_peer(PEERS[i], direct=DIRECT[cfg['direct']], indirect=INDIRECT[cfg['indirect']])
+            p = world.add_peer(PEERS[i], obf_port=OBF_PORT, direct=DIRECT[cfg['direct']],
+                               indirect=INDIRECT[cfg['indirect']])
             peers.append(p)
 
         def announce(link, items):
@@ -311,12 +355,22 @@ def run_case(case) -> CaseResult:
                     link.send_msg(M.DistributedBranchLevel.Request(val))
                 log.append((kind, val, name))
 
+        cin_tickets = {}     # ticket of a ConnectToPeer the harness relayed -> connection type
+
         def make_on_link(p, cfg):
             def on_link(link):
-                # automatic announcement only on connections the client initiated (direct or pierced)
-                if link.typ != 'D' or not (link.incoming_to_peer or link.init == 'sent-pierce'):
+                init = link.init
+                if isinstance(init, M.PeerPierceFirewall.Request):
+                    # the client connected to p on behalf of a ConnectToPeer relayed by the server ('cin'): the type is
+                    # the one p asked for; everything after the (possibly obfuscated) init message is plain for 'D'
+                    link.typ = cin_tickets.get(init.ticket, link.typ)
+                    if link.ep.link.name.endswith(':%d' % OBF_PORT):
+                        labels.add('client-connected-to-obfuscated-port')
                     return
+                # automatic announcement only on candidate connections the client initiated (direct or pierced)
                 auto = cfg['auto']
+                if auto is None or link.typ != 'D' or not (isinstance(init, M.PeerInit.Request) or init == 'sent-pierce'):
+                    return
                 items = [('lvl', auto['v']), ('root', ROOTS[auto['r']])]
                 if auto['rf']:
                     items.reverse()
@@ -335,8 +389,7 @@ def run_case(case) -> CaseResult:
                     go()
             return on_link
         for p, cfg in zip(peers, doc['peers']):
-            if cfg['auto'] is not None:
-                p.on_link = make_on_link(p, cfg)
+            p.on_link = make_on_link(p, cfg)
 
         def live(link):
             ep = link.ep
@@ -370,6 +423,26 @@ def run_case(case) -> CaseResult:
         mdl = {'min_speed': None, 'ratio': None, 'accept': None, 'max': None,
                'pp': collections.deque(maxlen=20), 'offline_dirty': False}
 
+        def server_transport():
+            writer = getattr(net.server_connection, '_writer', None)
+            return getattr(writer, 'transport', None) if writer is not None else None
+
+        async def quiesce():
+            """300 ms without driver action; longer while a send to the (slow) server is still waiting for drain():
+            the server link must be found idle twice, 50 ms apart (what a resumed handler sends has arrived then)."""
+            def busy():
+                tr = server_transport()
+                return tr is not None and getattr(tr, '_paused', False)
+            await asyncio.sleep(QUIESCE)
+            for _ in range(400):
+                if busy():
+                    await asyncio.sleep(QUIESCE)
+                    continue
+                await asyncio.sleep(0.0503)
+                if not busy():
+                    return
+            labels.add('never-quiescent')
+
         def offline():
             # the library's components learn about a new session one after the other: use the component's own view too
             return client.session is None or getattr(dn, '_session', None) is None
@@ -394,6 +467,10 @@ def run_case(case) -> CaseResult:
             conn = event.connection
             if isinstance(conn, ServerConnection):
                 mdl['min_speed'] = mdl['ratio'] = None
+                if event.state == ConnectionState.CONNECTED and drain_delay:
+                    tr = server_transport()
+                    if tr is not None:
+                        tr.drain_delay = drain_delay     # slow server link: every send to the server takes that long
             elif isinstance(conn, PeerConnection) and event.state == ConnectionState.CLOSED:
                 par = dn.parent
                 if par is not None and par.connection is conn:
@@ -455,7 +532,7 @@ def run_case(case) -> CaseResult:
 
         await client.start()
         await client.login()
-        await asyncio.sleep(QUIESCE)
+        await quiesce()
 
         manual_relogin = {'needed': False}
 
@@ -593,6 +670,14 @@ def run_case(case) -> CaseResult:
                 if cl is None:
                     continue
                 c_level = c_root = None
+                if cl.ep.inbuf or any(isinstance(m, tuple) for _, m in cl.messages):
+                    # D connections carry plain frames after the init message, whatever port they were opened on
+                    stale = True
+                    violate('C13/child-told-unreadable-frames',
+                            f"[{tag}] child {c.username} ({c.connection!r}) received bytes that are not plain "
+                            f"distributed frames ({len(cl.ep.inbuf)} bytes without a plausible frame header, "
+                            f"{sum(1 for _, m in cl.messages if isinstance(m, tuple))} undecodable frames)")
+                    continue
                 for _, m in cl.messages:
                     if isinstance(m, M.DistributedBranchLevel.Request):
                         c_level = m.level
@@ -647,7 +732,22 @@ def run_case(case) -> CaseResult:
                 else:
                     done = False
             elif op == 'in':
-                p.connect('D')
+                # on the obfuscated port only the init message is obfuscated, a 'D' connection is plain afterwards
+                p.connect('D', obfuscated=ev['obf'])
+                if ev['obf']:
+                    labels.add('incoming-on-obfuscated-port')
+            elif op == 'cin':
+                # p asks the server to make the client connect to it (ConnectToPeer relay): the client opens the
+                # connection (obfuscated port of p when network.peer.obfuscate prefers it), p did the asking, so it is
+                # a child candidate, not a potential parent
+                if logged_in():
+                    ticket = 900000 + n
+                    cin_tickets[ticket] = 'D'
+                    server.send(M.ConnectToPeer.Response(
+                        username=p.name, typ='D', ip=p.ip, port=p.port, ticket=ticket, privileged=False,
+                        obfuscated_port_amount=1, obfuscated_port=p.obf_port))
+                else:
+                    done = False
             elif op in ('lvl', 'root', 'both', 'plvl', 'proot', 'pboth'):
                 # p-variants address the current parent's link; without a parent they act like the plain variants
                 link = parent_link() if op[0] == 'p' else None
@@ -655,7 +755,7 @@ def run_case(case) -> CaseResult:
                     link = dlinks(p, ev['k'])
                 if link is None:
                     # nobody is connected: p connects and announces at once (PeerInit and values in flight together)
-                    link = p.connect('D')
+                    link = p.connect('D', obfuscated=ev['obf'])
                     labels.add('connect-and-announce')
                 if link is not None:
                     note_announce(link)
@@ -729,7 +829,7 @@ def run_case(case) -> CaseResult:
             labels.add(('op:' if done else 'noop:') + op)
             gap = GAPS[ev['g']]
             if gap == 'q':
-                await asyncio.sleep(QUIESCE)
+                await quiesce()
                 observe(f'after event {n} {op}')
             elif gap == 0.0:
                 await simloop.step(1 + ev['k'] % 4)
@@ -738,11 +838,12 @@ def run_case(case) -> CaseResult:
                 await asyncio.sleep(gap)
                 labels.add('gap:ms')
             parent_among_children(f'{gap} s after event {n} {op}')
-        await asyncio.sleep(QUIESCE)
+        await quiesce()
         observe('end')
         # a session that was lost by reset comes back by itself: check once more after the re-login
         if client.session is None and not manual_relogin['needed']:
             await asyncio.sleep(3.0)
+            await quiesce()
             if client.session is not None:
                 labels.add('auto-relogin')
                 observe('after auto re-login')
@@ -776,7 +877,7 @@ def run_case(case) -> CaseResult:
 
 
 def run_shard(ctx):
-    n = 150 if ctx.tier == 'quick' else 4000
+    n = 300 if ctx.tier == 'quick' else 4000
     ctx.explore(case_strategy(), n)
 
 
@@ -789,7 +890,8 @@ MANIFEST_ENTRY = {
                   'structure, the legitimacy of every child addition and the fold of everything told to the server and '
                   'to each child are compared with the position derived from the current parent. Sampled histories; no '
                   'proof.',
-    'level_note': 'Trusted base: virtual loop, in-memory TCP (ordered, lossless, 1 ms latency), simulated server, the '
+    'level_note': 'Trusted base: virtual loop, in-memory TCP (ordered, lossless, 1 ms latency, generated write back '
+                  'pressure on the server link, clear and obfuscated listening ports), simulated server, the '
                   'small reference model in checks/c13.py (child limit formula of SOULSEEK.rst, potential-parent '
                   'cache of 20). Position checks only while logged in; announced roots never equal the own user name.',
 }
@@ -816,6 +918,19 @@ KNOWN_REPLAYS = {
     # _set_parent disconnects a candidate connection that is still connecting (race mode: its connect task survives
     # the cancellation); the connect completes afterwards: CLOSED -> CONNECTED, unregistered; it later becomes parent
     # (C13-4, connection layer)
+    # regression histories for behaviours the random part reaches less often (quiet on the pinned tree):
+    # a child on the obfuscated listening port / a child the client connected to on its obfuscated port must be told
+    # its position in plain frames, also when the parent announces new values
+    'C13/child-told-unreadable-frames':
+        {'peers': _P3, 'events': [{'op': 'in', 'p': 0, 'obf': True, 'g': 5}] + _PARENT + [{'op': 'plvl', 'v': 3, 'g': 5}]},
+    'C13/child-told-unreadable-frames#client-connects-to-obfuscated-port':
+        {'peers': _P3, 'obfuscate': True, 'events': [{'op': 'cin', 'p': 0, 'g': 5}] + _PARENT},
+    # slow server link (drain 50 ms): the parent is lost and a connected candidate announces 2 ms later, while
+    # _unset_parent still waits for the server send: what the child is told LAST must be the new parent's position
+    'C13/child-told-wrong-position:parent-set':
+        {'peers': _P3, 'drain': 2, 'events': [{'op': 'in', 'p': 0, 'g': 5}] + _PARENT + [
+            {'op': 'pp', 'who': [2], 'g': 5}, {'op': 'pclose', 'g': 3},
+            {'op': 'both', 'p': 2, 'k': 0, 'v': 3, 'r': 5, 'g': 5}]},
     'C13/parent-not-live:unregistered':
         {'peers': [_P3[0], _P3[0], {'direct': 2, 'indirect': 1, 'auto': None}], 'race': True, 'events': [
             {'op': 'pp', 'who': [2], 'g': 5}, {'op': 'both', 'p': 2, 'k': 0, 'v': 1, 'r': 5, 'g': 0},
